@@ -125,9 +125,49 @@ def gen_decoy_case(rng, entry=None):
             'actual': join_text(rng, act), 'expected': join_text(rng, exp), 'opts': opts}
 
 
+SHIFT_POOL = [
+    # (reference line, actual line, kind): same / excused by the options below / unexcused
+    ('abc', 'abc', 'same'), ('foo bar', 'foo bar', 'same'), ('', '', 'same'),
+    ('id: 12', 'id: 345', 'excused'), ('took 12ms', 'took 7ms', 'excused'), ('id: 7 took 1ms', 'id: 8 took 22ms', 'excused'),
+    ('foo bar', 'foo baz', 'unexcused'), ('abc', 'abd', 'unexcused'), ('xx', 'x', 'unexcused'), ('v1 ok', 'v1 OK', 'unexcused'),
+]
+
+
+def gen_shift_case(rng, entry=None):
+    """lines removed on one side only (so that line numbers of the two sides drift apart), followed by excused and
+    unexcused pairs of lines: the bookkeeping of which lines were excused is per side"""
+    exp, act = [], []
+    for _ in range(rng.randint(2, 6)):
+        r = rng.random()
+        if r < 0.3:
+            side = rng.choice(['act', 'act', 'exp', 'both'])
+            l = rng.choice(['# comment', '# note 2', 'user bob #'])
+            if side in ('act', 'both'):
+                act.append(l)
+            if side in ('exp', 'both'):
+                exp.append(rng.choice(['# comment', '# other']))
+        else:
+            e, a, _k = rng.choice(SHIFT_POOL)
+            if rng.random() < 0.5:
+                e, a = a, e
+            exp.append(e)
+            act.append(a)
+    opts = {'remove_lines': ['#']}
+    if rng.random() < 0.6:
+        opts['ignore_substrings'] = ['id', 'took']
+    else:
+        opts['ignore_patterns'] = [r'\d+', r'\d+ms']
+    if rng.random() < 0.2:
+        opts['rstrip'] = True
+    return {'entry': entry or rng.choice(['string', 'string', 'file', 'files']),
+            'actual': join_text(rng, act), 'expected': join_text(rng, exp), 'opts': opts}
+
+
 def gen_case(rng, entry=None):
     if rng.random() < 0.12:
         return gen_perm_case(rng, entry)
+    if rng.random() < 0.06:
+        return gen_shift_case(rng, entry)
     if rng.random() < 0.07:
         return gen_decoy_case(rng, entry)
     exp = gen_lines(rng)
@@ -210,7 +250,11 @@ def run_assert(case):
     try:
         os.makedirs(os.path.join(root, 'ref'))
         os.makedirs(os.path.join(root, 'out'))
-        os.makedirs(os.path.join(root, 'tmp'))
+        # the configured temporary directory may be created only after the test object (a fixture, setUp): what counts
+        # is where it points when the assertion runs
+        late_tmp = case.get('late_tmp', (len(case['actual']) + len(case['expected'])) % 4 == 1)
+        if not late_tmp:
+            os.makedirs(os.path.join(root, 'tmp'))
         refpath = os.path.join(root, 'ref', 'ref.txt')
         with open(refpath, 'w', encoding='utf-8', newline='') as f:
             f.write(case['expected'])
@@ -218,6 +262,10 @@ def run_assert(case):
         if case['entry'] != 'string':
             with open(actpath, 'w', encoding='utf-8', newline='') as f:
                 f.write(case['actual'])
+        if case['entry'] != 'string' and os.path.getsize(actpath) == os.path.getsize(refpath):
+            # same size, same modification time (files unpacked from an archive): still two different files
+            for p_ in (actpath, refpath):
+                os.utime(p_, (10 ** 9, 10 ** 9))
         before = snapshot(root)
         res = {}
 
@@ -234,6 +282,7 @@ def run_assert(case):
             os.makedirs(os.path.join(root, 'envfail'), exist_ok=True)
             os.environ['TDDA_FAIL_DIR'] = os.path.join(root, 'envfail')
         r = R(assert_fn)
+        os.makedirs(os.path.join(root, 'tmp'), exist_ok=True)
         kw = kw_of(case['opts'])
         exc = None
         try:
